@@ -40,7 +40,7 @@ ASSUMPTIONS = [
     "nothing is asserted about the bytes a failed or crashed save leaves behind",
 ]
 COMPONENTS = {"real": ["partitura.io.exportmatch", "partitura.io.importmatch", "partitura.io.matchfile_base / matchlines_v0 / matchlines_v1 / matchfile_utils", "musicanalysis.performance_codec (time maps, matched notes)", "score.add_measures/tie_notes/find_tuplets"], "stub": ["raw file layer (SimFS)", "line-level channel disturbances applied by the harness between writer and reader"]}
-PROBES = ("second_generation", "line_duplicated", "blank_lines", "conflicting_deletion", "conflicting_insertion", "ornament_entry", "deletion_entry", "insertion_entry", "pickup", "timesig_change", "ties", "grace", "pedal_lines", "fault_in_flight", "fixture_v0", "fixture_v1", "reader_on_torn_file")
+PROBES = ("second_generation", "auto_unfold", "line_duplicated", "blank_lines", "conflicting_deletion", "conflicting_insertion", "ornament_entry", "deletion_entry", "insertion_entry", "pickup", "timesig_change", "ties", "grace", "pedal_lines", "fault_in_flight", "fixture_v0", "fixture_v1", "reader_on_torn_file")
 
 FIXTURE_DIRS = ("/repo/tests/data/match",)
 
@@ -126,7 +126,7 @@ def generate(seed, tier, cfg):
             faults.append({"kind": kind, "path": "*", "at": f.choice((0, 0, 1, 2, 3)) if kind in ("F2", "F4", "F6") else 0, "errno": err, "op_index": oi, "frac": (round(f.random(), 3) if kind in ("F2", "F4", "F6") and f.random() < 0.5 else None)})
     if k.random() < 0.4:
         ops.append({"k": "regen", "ppq": k.choice((480, 960, 100, 96, 384)), "mpq": k.choice((500000, 600000, 454545, 750000))})
-    return {"mode": "roundtrip", "workload": asc, "perf_seed": st.workload.randrange(1 << 30), "ops": ops, "faults": faults, "knobs": {"ppq": k.choice((480, 480, 960, 100, 96)), "mpq": k.choice((500000, 500000, 600000, 454545)), "chunk": k.choice((0, 0, 7, 64, 1))}}
+    return {"mode": "roundtrip", "workload": asc, "perf_seed": st.workload.randrange(1 << 30), "ops": ops, "faults": faults, "knobs": {"ppq": k.choice((480, 480, 960, 100, 96)), "mpq": k.choice((500000, 500000, 600000, 454545)), "chunk": k.choice((0, 0, 7, 64, 1)), "auto_unfold": k.random() < 0.3}}
 
 
 # ----------------------------------------------------------------------------
@@ -372,10 +372,18 @@ def execute(case, keep_log=False):
     alignment = copy.deepcopy(align)
     snapper = FP.Snapshotter()
     snap0 = snapper.snapshot(score, ppart, alignment)
-    kw = dict(ppq=kn["ppq"], mpq=kn["mpq"], assume_unfolded=True)
+    auto = bool(kn.get("auto_unfold"))
+    kw = dict(ppq=kn["ppq"], mpq=kn["mpq"], assume_unfolded=not auto)
     want = describe(ppart, alignment, spart, ppq=kn["ppq"], mpq=kn["mpq"])
+    if auto:
+        # default of save_match: the exporter unfolds the part to fit the alignment; a part without repeats unfolds
+        # to an equal part whose note ids carry the visit number
+        res.probe("auto_unfold")
+        want["alignment"] = sorted(((lab, None if sid is None else sid + "-1", pid) for lab, sid, pid in want["alignment"]), key=repr)
+        want["snotes"] = {k + "-1": v for k, v in want["snotes"].items()}
+        want["sdups"] = [k + "-1" for k in want["sdups"]]
     try:
-        mf = matchfile_from_alignment(alignment, ppart, spart, ppq=kn["ppq"], mpq=kn["mpq"], assume_part_unfolded=True)
+        mf = matchfile_from_alignment(alignment, ppart, spart, ppq=kn["ppq"], mpq=kn["mpq"], assume_part_unfolded=not auto)
         ref_text = "".join(l.matchline + "\n" for l in mf.lines)
     except Exception as e:
         import traceback
@@ -388,7 +396,14 @@ def execute(case, keep_log=False):
         return res
     s1 = snapper.snapshot(score, ppart, alignment)
     if s1 != snap0:
-        res.violation("O3-nonmutation", "save", "matchfile_from_alignment changed its arguments: %s" % "; ".join(FP.diff_snapshots(snap0, s1)), site="arguments")
+        from checks.c20 import SEGMENT_SHAPE, diff_shape
+
+        if auto and diff_shape(snap0, s1) == SEGMENT_SHAPE:
+            # the automatic unfolding stores Segment objects on the part (known finding KF-C20-unfold-stores-segments,
+            # judged under C20, whose statement it concerns); anything else the export changes is reported here
+            res.count("auto_unfold_stored_segments")
+        else:
+            res.violation("O3-nonmutation", "save", "matchfile_from_alignment changed its arguments: %s" % "; ".join(FP.diff_snapshots(snap0, s1)), site="arguments")
         snap0 = s1
     ref_bytes = ref_text.encode("utf-8")
     fs = SimFS(chunk=kn["chunk"])
